@@ -11,11 +11,14 @@ import (
 	"context"
 	"errors"
 	"fmt"
+	"sort"
 	"strconv"
+	"strings"
 	"time"
 
 	"github.com/voedger/voedger/pkg/appdef"
 	"github.com/voedger/voedger/pkg/appdef/builder"
+	"github.com/voedger/voedger/pkg/appdef/constraints"
 	"github.com/voedger/voedger/pkg/appdef/filter"
 	appdefsys "github.com/voedger/voedger/pkg/appdef/sys"
 	"github.com/voedger/voedger/pkg/appparts"
@@ -52,6 +55,7 @@ var (
 	qnOther   = appdef.NewQName("test", "Other") // does not
 	qnPrj     = appdef.NewQName("test", "prj")
 	qnSeen    = appdef.NewQName("test", "Seen")
+	qnArg     = appdef.NewQName("test", "Arg") // argument of qnCmd: a string the projector copies into its row
 	wsids     = []istructs.WSID{1001, 1002}
 	errFault  = errors.New("injected fault")
 )
@@ -75,6 +79,12 @@ type hooks interface {
 	putBatch(ws istructs.WSID, offsets []istructs.Offset, position istructs.Offset) (before, after error)
 	// sendMail: an e-mail for this offset is about to be sent; error = sender failure
 	sendMail(ofs istructs.Offset) error
+	// lookupDescriptor: the descriptor record of this workspace is about to be read (isProjectorDefined
+	// of the operator; reads from inside the projector function are not reported); absent = the
+	// command that creates the workspace has stored its event and not yet applied its records
+	lookupDescriptor(ws istructs.WSID) (absent bool)
+	// invokeEnd: the projector function returns
+	invokeEnd()
 }
 
 type rig struct {
@@ -93,6 +103,7 @@ type rigConf struct {
 	bundlesLimit  int
 	flushInterval int64 // ns
 	flushPosEvery int64 // ns
+	noEventCache  bool  // PLogEventCacheSize = 0: single reads come from the storage into pooled buffers
 }
 
 func newRig(h hooks, rc rigConf) (*rig, error) {
@@ -109,8 +120,10 @@ func newRig(h hooks, rc rigConf) (*rig, error) {
 		view.Key().PartKey().AddField("pk", appdef.DataKind_int32)
 		view.Key().ClustCols().AddField("ofs", appdef.DataKind_int64)
 		view.Value().AddField("cnt", appdef.DataKind_int32, true)
+		view.Value().AddField("s", appdef.DataKind_string, false, constraints.MaxLen(1000))
 	})
-	wsb.AddCommand(qnCmd)
+	wsb.AddObject(qnArg).AddField("s", appdef.DataKind_string, true, constraints.MaxLen(1000))
+	wsb.AddCommand(qnCmd).SetParam(qnArg)
 	wsb.AddCommand(qnOther)
 	prj := wsb.AddProjector(qnPrj)
 	prj.Events().Add([]appdef.OperationKind{appdef.OperationKind_Execute}, filter.QNames(qnCmd))
@@ -121,6 +134,9 @@ func newRig(h hooks, rc rigConf) (*rig, error) {
 	cfgs := make(istructsmem.AppConfigsType, 1)
 	cfg := cfgs.AddBuiltInAppConfig(testApp, adb)
 	cfg.SetNumAppWorkspaces(istructs.DefaultNumAppWorkspaces)
+	if rc.noEventCache {
+		cfg.Params.PLogEventCacheSize = 0
+	}
 	cfg.Resources.Add(istructsmem.NewCommandFunction(qnCmd, istructsmem.NullCommandExec))
 	cfg.Resources.Add(istructsmem.NewCommandFunction(qnOther, istructsmem.NullCommandExec))
 	cfg.AddAsyncProjectors(istructs.Projector{Name: qnPrj, Func: r.projector})
@@ -192,6 +208,9 @@ func (r *rig) appendEvent(ofs istructs.Offset, trig bool, ws istructs.WSID) erro
 	}
 	reb := r.as.Events().GetNewRawEventBuilder(istructs.NewRawEventBuilderParams{GenericRawEventBuilderParams: istructs.GenericRawEventBuilderParams{
 		Workspace: ws, HandlingPartition: partID, PLogOffset: ofs, WLogOffset: ofs, QName: qn}})
+	if trig {
+		reb.ArgumentObjectBuilder().PutString("s", payload(ofs))
+	}
 	raw, err := reb.BuildRawEvent()
 	if err != nil {
 		return err
@@ -204,6 +223,9 @@ func (r *rig) appendEvent(ofs istructs.Offset, trig bool, ws istructs.WSID) erro
 	return nil
 }
 
+// payload is the string carried by the argument of the triggering event at this offset
+func payload(ofs istructs.Offset) string { return strings.Repeat(fmt.Sprintf("<%06d>", ofs), 30) }
+
 // notify is what the command processor does after it saved the event at this offset
 func (r *rig) notify(ofs istructs.Offset) {
 	r.broker.Update(in10n.ProjectionKey{App: testApp, Projection: actualizers.PLogUpdatesQName, WS: istructs.WSID(partID)}, ofs)
@@ -215,20 +237,26 @@ func (r *rig) storedPosition() (istructs.Offset, error) {
 }
 
 // storedEffects: offset -> how many times the projector's effect for it was persisted-over
-func (r *rig) storedEffects() (map[istructs.Offset]int32, error) {
+func (r *rig) storedEffects() (map[istructs.Offset]int32, []istructs.Offset, error) {
 	res := map[istructs.Offset]int32{}
+	var bad []istructs.Offset // rows whose string is not the one of their event
 	for _, ws := range wsids {
 		kb := r.as.ViewRecords().KeyBuilder(qnSeen)
 		kb.PutInt32("pk", 0)
 		err := r.as.ViewRecords().Read(context.Background(), ws, kb, func(k istructs.IKey, v istructs.IValue) error {
-			res[istructs.Offset(k.AsInt64("ofs"))] = v.AsInt32("cnt")
+			o := istructs.Offset(k.AsInt64("ofs"))
+			res[o] = v.AsInt32("cnt")
+			if v.AsString("s") != payload(o) {
+				bad = append(bad, o)
+			}
 			return nil
 		})
 		if err != nil {
-			return nil, err
+			return nil, nil, err
 		}
 	}
-	return res, nil
+	sort.Slice(bad, func(i, j int) bool { return bad[i] < bad[j] })
+	return res, bad, nil
 }
 
 // ---- the instrumented projector ----
@@ -236,6 +264,7 @@ func (r *rig) storedEffects() (map[istructs.Offset]int32, error) {
 func (r *rig) projector(event istructs.IPLogEvent, s istructs.IState, intents istructs.IIntents) error {
 	ofs := event.WLogOffset()
 	fail, withMail := r.h.invoke(ofs)
+	defer r.h.invokeEnd()
 	if fail != nil {
 		return fail
 	}
@@ -258,6 +287,8 @@ func (r *rig) projector(event istructs.IPLogEvent, s istructs.IState, intents is
 		cnt = old.AsInt32("cnt") + 1
 	}
 	vb.PutInt32("cnt", cnt)
+	// as projectors do: a value read from the event goes into the intent as it is
+	vb.PutString("s", event.ArgumentObject().AsString("s"))
 	if withMail && r.withMail {
 		mk, err := s.KeyBuilder(sys.Storage_SendMail, appdef.NullQName)
 		if err != nil {
@@ -326,8 +357,23 @@ type wrapStructs struct {
 func (w *wrapStructs) Events() istructs.IEvents {
 	return &wrapEvents{IEvents: w.IAppStructs.Events(), r: w.r}
 }
+func (w *wrapStructs) Records() istructs.IRecords {
+	return &wrapRecords{IRecords: w.IAppStructs.Records(), r: w.r}
+}
 func (w *wrapStructs) ViewRecords() istructs.IViewRecords {
 	return &wrapViews{IViewRecords: w.IAppStructs.ViewRecords(), r: w.r}
+}
+
+type wrapRecords struct {
+	istructs.IRecords
+	r *rig
+}
+
+func (w *wrapRecords) GetSingleton(ws istructs.WSID, qn appdef.QName) (istructs.IRecord, error) {
+	if qn == appdef.QNameCDocWorkspaceDescriptor && w.r.h.lookupDescriptor(ws) {
+		return istructsmem.NewNullRecord(istructs.NullRecordID), nil
+	}
+	return w.IRecords.GetSingleton(ws, qn)
 }
 
 type wrapEvents struct {
